@@ -88,20 +88,7 @@ func C07adder(p *load.Program, run *report.Run) {
 	}
 	specs := []spec{
 		{"NewAdder", false, false, func(x, y, nx, ny, nz int) int { return x + y }, 0, false, true},
-		{"NewSubtractor", false, false, func(x, y, nx, ny, nz int) int {
-			n := nx
-			if ny > n {
-				n = ny
-			}
-			if nz < n {
-				n = nz
-			}
-			d := (x - y) & (1<<uint(n) - 1)
-			if x&(1<<uint(n)-1) < y&(1<<uint(n)-1) {
-				d |= 1 << uint(n)
-			}
-			return d
-		}, 0, false, true},
+		{"NewSubtractor", false, false, func(x, y, nx, ny, nz int) int { return (x - y) & (1<<uint(nz) - 1) }, 0, false, true},
 		{"NewUintGtComparator", true, false, func(x, y, nx, ny, nz int) int { return b2i(x > y) }, 0, false, true},
 		{"NewUintGeComparator", true, false, func(x, y, nx, ny, nz int) int { return b2i(x >= y) }, 0, false, true},
 		{"NewUintLtComparator", true, false, func(x, y, nx, ny, nz int) int { return b2i(x < y) }, 0, false, true},
